@@ -6,6 +6,7 @@ import ChythonModel.Proofs.C14Inverse
 import ChythonModel.Proofs.C14Valid
 import ChythonModel.Proofs.C14Neutral
 import ChythonModel.Proofs.C14Idem
+import ChythonModel.Proofs.C14Resonance
 /-!
 # C14 — normalisation conserves composition, is idempotent and numbering independent
 
@@ -510,6 +511,41 @@ example : ∃ st', chargeBody false false
                  (3, [(1, { order := 4 }), (2, { order := 4 })])]⟩ }
       [(1, 1), (2, 2), (3, 3)] = some st' ∧ netCharge st'.mol = 1 ∧ (st'.mol.atom? 2).map (·.charge) = some 1 :=
   ⟨_, rfl, by decide, by decide⟩
+
+/-! ## `fix_resonance` (`fixResonance`: what the driver's `RES` request runs) -/
+
+/-- **`fix_resonance` keeps the atoms and the net charge**: for every molecule with unique atom numbers, any labels and any pop
+    order of the `rads` / `entries` sets, a finished run — radical pairing, every charge shift along a delocalisation path, the
+    final `calc_implicit` of the touched atoms — returns the same atoms (numbers, order, elements, isotopes; hence the same heavy
+    atoms) with the same total charge: each shift takes one unit from the cation end and gives it to the anion start, radical
+    steps and bond-order writes do not touch charges. (The hydrogen count is recomputed and NOT conserved in general: known
+    finding `C14/fix_resonance/hydrogen-count`.) -/
+theorem fix_resonance_conserves (m : Mol) (L : Labels) (radOrder entOrder : List Nat) (o : Mol) (hs : List Nat)
+    (hnd : m.ids.Nodup) (h : fixResonance m L radOrder entOrder = some (o, hs)) :
+    skeleton o = skeleton m ∧ heavyAtoms o = heavyAtoms m ∧ netCharge o = netCharge m :=
+  let k := fixResonance_keeps m L radOrder entOrder o hs hnd h
+  ⟨k.1, heavyAtoms_eq_of_skeleton k.1, k.2⟩
+
+/-- one charge shift, as the loop body performs it: `−1` on the cation end `e`, `+1` on the anion start `n`, then the bond orders
+    of the path — atoms kept, net charge unchanged, whatever the path -/
+theorem charge_shift_step_conserves (m m1 m2 : Mol) (n e : Nat) (path : RPath) (hs : List Nat) (hnd : m.ids.Nodup)
+    (h1 : updAtom? m e (fun a => { a with charge := a.charge - 1 }) = some m1)
+    (h2 : updAtom? m1 n (fun a => { a with charge := a.charge + 1 }) = some m2) :
+    skeleton (applyPath path m2 hs).1 = skeleton m ∧ netCharge (applyPath path m2 hs).1 = netCharge m := by
+  have c1 := updAtom?_charge (d := -1) hnd (by simpa [Int.sub_eq_add_neg] using h1)
+  have hnd1 : m1.ids.Nodup := by rw [ids_of_skeleton c1.1]; exact hnd
+  have c2 := updAtom?_charge (d := 1) hnd1 h2
+  have k := keeps_applyPath path m2 hs
+  exact ⟨k.1.trans (c2.1.trans c1.1), by rw [k.2, c2.2, c1.2]; omega⟩
+
+/-- the hypotheses are satisfiable and the run does something: the 1,3-dipole `[CH2-]C=[OH+]` (atoms 1–3) is neutralised to
+    `C=CO`: the charge moves from 3 to 1, both bond orders flip, all three atoms are reported, hydrogens stay 2 / 1 / 1 -/
+example : (fixResonance
+      ⟨[(1, { z := 6, charge := -1, implH := some 2 }), (2, { z := 6, implH := some 1 }), (3, { z := 8, charge := 1, implH := some 1 })],
+       [(1, [(2, { order := 1 })]), (2, [(1, { order := 1 }), (3, { order := 2 })]), (3, [(2, { order := 2 })])]⟩
+      ⟨[(1, ⟨1, 1, 0, []⟩), (2, ⟨2, 2, 1, []⟩), (3, ⟨1, 2, 0, []⟩)], []⟩ [] [1]).map
+    (fun r => (r.2, r.1.atoms.map (fun p => (p.2.charge, p.2.implH)), (r.1.bond? 1 2).map (·.order), (r.1.bond? 2 3).map (·.order))) =
+    some ([1, 2, 3], [(0, some 2), (0, some 1), (0, some 1)], some 2, some 1) := by decide +kernel
 
 /-! ## explicit / implicit hydrogens -/
 
